@@ -164,6 +164,11 @@ def write_struct(representation_code: RepresentationCode, value: Any) -> bytes:
         # not cached: 0.0 and -0.0 (or nan-s) compare/hash alike but are written differently
         return _write_struct(representation_code, value)
 
+    if isinstance(value, datetime):
+        # not cached: date-times differing only in 'fold' (the two readings of a wall-clock time which occurs twice when
+        # daylight saving time ends) compare/hash alike but are different instants; naive ones depend on the local zone
+        return _write_struct(representation_code, value)
+
     if representation_code in (RepresentationCode.OBNAME, RepresentationCode.OBJREF):
         # not cached: the name and the origin reference of an object may change between two writes
         return _write_struct(representation_code, value)
